@@ -5,6 +5,9 @@
 #include "nmtools/array/view/where.hpp"
 #include "nmtools/array/view/broadcast_arrays.hpp"
 #include "nmtools/array/view/tile.hpp"
+#include "nmtools/array/view/expand_dims.hpp"
+#include "nmtools/array/view/atleast_nd.hpp"
+#include "nmtools/array/view/squeeze.hpp"
 #include "nmtools/array/view/ufuncs/add.hpp"
 static constexpr size_t NA = (size_t)-1;
 template <typename T> static inline size_t tv(const T& v){ if constexpr (meta::is_fail_v<T>) return NA; else return (size_t)v; }
@@ -62,3 +65,13 @@ KERNEL int K(k_trt_outer_h4_h16)(const size_t* sa, const unsigned* da, const siz
   hyb_t<unsigned,4,2> a; h2_t b; if (!mk2(a,sa,da) || !mk2(b,sb,db)) return -1; return stat_vs_run(view::outer_add(a, b), t, rt); }
 KERNEL int K(k_trt_outer_h16_h4)(const size_t* sa, const unsigned* da, const size_t* sb, const unsigned* db, size_t* t, size_t* rt){
   h2_t a; hyb_t<unsigned,4,2> b; if (!mk2(a,sa,da) || !mk2(b,sb,db)) return -1; return stat_vs_run(view::outer_add(a, b), t, rt); }
+
+// dimension-changing views over a BOUNDED-DIM operand (run-time dim 1..3 = up to the bound): the dim bound of the result must cover dim+1 / max(dim, nd)
+KERNEL int K(k_trt_expand_b3)(const size_t* shape, size_t dim, const unsigned* data, int axis, size_t* t, size_t* rt){
+  b3_t a; if (!a.resize(mk_sv<size_t,3>(shape, dim))) return -1; fill(a, data); return stat_vs_run(view::expand_dims(a, axis), t, rt); }
+KERNEL int K(k_trt_atleast1_b3)(const size_t* shape, size_t dim, const unsigned* data, int, size_t* t, size_t* rt){
+  b3_t a; if (!a.resize(mk_sv<size_t,3>(shape, dim))) return -1; fill(a, data); return stat_vs_run(view::atleast_nd(a, meta::ct_v<1>), t, rt); }
+KERNEL int K(k_trt_atleast2_b3)(const size_t* shape, size_t dim, const unsigned* data, int, size_t* t, size_t* rt){
+  b3_t a; if (!a.resize(mk_sv<size_t,3>(shape, dim))) return -1; fill(a, data); return stat_vs_run(view::atleast_2d(a), t, rt); }
+KERNEL int K(k_trt_atleast4_b3)(const size_t* shape, size_t dim, const unsigned* data, int, size_t* t, size_t* rt){
+  b3_t a; if (!a.resize(mk_sv<size_t,3>(shape, dim))) return -1; fill(a, data); return stat_vs_run(view::atleast_nd(a, meta::ct_v<4>), t, rt); }
